@@ -658,7 +658,15 @@ class Interp(object):
                 self.emit('with-exit', s, {'ctx': v})
 
     def st_FunctionDef(self, s):
-        raise AnalysisError('nested function definition')
+        # a nested function: a closure over the defining frame (free variables are read from that frame when called)
+        if s.decorator_list:
+            raise AnalysisError('decorated nested function %s' % s.name)
+        for n in ast.walk(s):
+            if isinstance(n, (ast.Nonlocal, ast.Global)):
+                raise AnalysisError('nested function %s rebinding outer names' % s.name)
+        fr = self.frames[-1]
+        fi = FunctionInfo(fr.fi.module, None, s, 'function')
+        fr.locals[s.name] = ('closure', fi, fr)
 
     # -- expressions ------------------------------------------------------------
     def eval(self, e):
@@ -674,6 +682,11 @@ class Interp(object):
         fr = self.frames[-1]
         if e.id in fr.locals:
             return fr.locals[e.id]
+        enc = getattr(self, '_closure_env', {}).get(id(fr.fi.node))
+        while enc is not None and e.id not in _local_names(fr.fi):
+            if e.id in enc.locals:
+                return enc.locals[e.id]
+            enc = getattr(self, '_closure_env', {}).get(id(enc.fi.node))
         if e.id in _local_names(fr.fi):
             self.emit('unbound', e, {'name': e.id})
             raise AbsRaise(ExcValue('UnboundLocalError', (e.id,), site=e), site=e, explicit=False,
@@ -938,6 +951,12 @@ class Interp(object):
         if isinstance(fn, type):
             self.calls_resolved += 1
             return self.models.call_builtin(self, Builtin(fn.__name__), args, kwargs, node)
+        if isinstance(fn, tuple) and fn and fn[0] == 'closure':
+            self.calls_resolved += 1
+            _, cfi, defining = fn
+            self._closure_env = getattr(self, '_closure_env', {})
+            self._closure_env[id(cfi.node)] = defining
+            return self.call_function(cfi, args, kwargs, node)
         if isinstance(fn, tuple) and fn and fn[0] == 'lambda':
             lam = fn[1]
             fr = Frame(self.frames[-1].fi)
